@@ -78,6 +78,8 @@ type peekingReader struct {
 		Read([]byte) (int, error)
 	}
 	orig io.ReadCloser
+	// peekErr is the error met while probing: the probe consumed it, the next Read reports it
+	peekErr error
 }
 
 func (p *peekingReader) HasContent() bool {
@@ -89,6 +91,9 @@ func (p *peekingReader) HasContent() bool {
 	}
 	b, err := p.underlying.Peek(1)
 	if err != nil {
+		if p.peekErr == nil {
+			p.peekErr = err
+		}
 		return false
 	}
 	return len(b) > 0
@@ -100,6 +105,11 @@ func (p *peekingReader) Read(d []byte) (int, error) {
 	}
 	if p.underlying == nil {
 		return 0, io.ErrUnexpectedEOF
+	}
+	if p.peekErr != nil && p.underlying.Buffered() == 0 {
+		err := p.peekErr
+		p.peekErr = nil
+		return 0, err
 	}
 	return p.underlying.Read(d)
 }
